@@ -1,6 +1,8 @@
 package compiler
 
 import (
+	"fmt"
+
 	"github.com/grafana/cog/internal/ast"
 	"github.com/grafana/cog/internal/tools"
 )
@@ -32,6 +34,7 @@ var _ Pass = (*AnonymousStructsToNamed)(nil)
 //	```
 type AnonymousStructsToNamed struct {
 	newObjects []ast.Object
+	takenNames map[string]struct{}
 }
 
 func (pass *AnonymousStructsToNamed) Process(schemas []*ast.Schema) ([]*ast.Schema, error) {
@@ -45,6 +48,12 @@ func (pass *AnonymousStructsToNamed) Process(schemas []*ast.Schema) ([]*ast.Sche
 
 func (pass *AnonymousStructsToNamed) processSchema(schema *ast.Schema) *ast.Schema {
 	pass.newObjects = nil
+
+	// names already used in the schema: a generated name must not replace an existing object
+	pass.takenNames = make(map[string]struct{}, schema.Objects.Len())
+	schema.Objects.Iterate(func(_ string, object ast.Object) {
+		pass.takenNames[object.Name] = struct{}{}
+	})
 
 	schema.Objects = schema.Objects.Map(func(_ string, object ast.Object) ast.Object {
 		return pass.processObject(object)
@@ -123,12 +132,23 @@ func (pass *AnonymousStructsToNamed) processStruct(pkg string, parentName string
 		objectDef.Struct.Fields[i].Type = pass.processType(pkg, name, field.Type)
 	}
 
-	newObject := ast.NewObject(pkg, parentName, objectDef)
+	// `Panel.options.legend` and `PanelOptions.legend` lead to the same name: the second one gets a suffix
+	objectName := parentName
+	for suffix := 2; ; suffix++ {
+		if _, taken := pass.takenNames[objectName]; !taken {
+			break
+		}
+
+		objectName = fmt.Sprintf("%s%d", parentName, suffix)
+	}
+	pass.takenNames[objectName] = struct{}{}
+
+	newObject := ast.NewObject(pkg, objectName, objectDef)
 	newObject.AddToPassesTrail("AnonymousStructsToNamed")
 
 	pass.newObjects = append(pass.newObjects, newObject)
 
-	ref := ast.NewRef(pkg, parentName)
+	ref := ast.NewRef(pkg, objectName)
 	ref.Nullable = def.Nullable
 	ref.Default = def.Default
 
